@@ -650,7 +650,7 @@ def _forced_conflict(draw, base):
     n = len(base["cells"])
     shape = draw(st.sampled_from(["del_vs_edit", "edit_vs_del", "both_edit_source", "both_edit_outputs", "both_edit_meta",
                                   "both_insert_same_pos", "both_insert_similar", "both_insert_runs", "both_insert_runs", "insert_next_to_edit", "insert_next_to_del",
-                                  "both_append_nonl", "both_attach", "both_attach_leftover", "same_insert_next_line_edit", "same_insert_next_line_edit", "both_add_outputs_shared", "both_add_outputs_shared", "attach_del_vs_edit", "out_insert_vs_change", "out_insert_vs_change", "both_nbmeta", "both_minor", "both_del", "both_ec", "both_change_id",
+                                  "both_append_nonl", "both_attach", "both_attach_leftover", "same_insert_next_line_edit", "same_insert_next_line_edit", "both_add_outputs_shared", "both_add_outputs_shared", "attach_del_vs_edit", "out_insert_vs_change", "out_insert_vs_change", "same_output_line_small_edits", "same_output_line_small_edits", "both_nbmeta", "both_minor", "both_del", "both_ec", "both_change_id",
                                   "both_same_edit", "both_edit_same_output", "both_edit_same_output", "transient_meta", "type_vs_edit", "type_vs_edit", "type_vs_edit", "both_rerun", "both_rerun", "both_rerun", "both_rerun", "two_outputs", "two_outputs", "both_insert_block"]))
     usedl, usedr = _ids(l), _ids(r)
     if shape == "both_insert_runs":
@@ -686,7 +686,7 @@ def _forced_conflict(draw, base):
         return l, r, shape
     i = draw(st.integers(0, n - 1))
     code_idx = [k for k, x in enumerate(base["cells"]) if x["cell_type"] == "code"]
-    if code_idx and shape in ("both_add_outputs_shared", "out_insert_vs_change", "both_edit_outputs", "both_ec", "both_edit_same_output", "transient_meta", "type_vs_edit", "both_rerun", "two_outputs"):
+    if code_idx and shape in ("both_add_outputs_shared", "out_insert_vs_change", "same_output_line_small_edits", "both_edit_outputs", "both_ec", "both_edit_same_output", "transient_meta", "type_vs_edit", "both_rerun", "two_outputs"):
         i = draw(st.sampled_from(code_idx))      # shapes about outputs / execution counts need a code cell
     c = base["cells"][i]
     dve = draw(st.sampled_from([None, None, ["source", "rerun"], ["source", "toggle"], ["rerun"], ["rerun", "toggle"], ["source", "outputs"]]))
@@ -823,6 +823,29 @@ def _forced_conflict(draw, base):
                     so.insert(j, draw(output()))
                 elif extra == "del_other" and len(so) > 1:
                     del so[(j + 1) % len(so)]
+    elif shape == "same_output_line_small_edits" and c["cell_type"] == "code":
+        # the same line of one output's text (or of the source) changed by a few characters on both sides - a character-level
+        # conflict inside a line, the output staying aligned
+        text_ = "epoch 1 loss 0.5127 accuracy 0.8011\nepoch 2 loss 0.4107 accuracy 0.8455\nepoch 3 loss 0.3977 accuracy 0.8590\n"
+        kind_ = draw(st.sampled_from(["stream", "stream", "text/plain", "source"]))
+        o = {"output_type": "stream", "name": "stdout", "text": text_} if kind_ == "stream" else \
+            {"output_type": "execute_result", "data": {"text/plain": text_}, "metadata": {}, "execution_count": c.get("execution_count")}
+        for nb_ in (base, l, r):
+            if kind_ == "source":
+                nb_["cells"][i]["source"] = text_
+            else:
+                nb_["cells"][i]["outputs"] = [copy.deepcopy(o)] + nb_["cells"][i]["outputs"][:1]
+        swaps = [("0.4107", draw(st.sampled_from(["0.4109", "0.4"]))), ("0.8455", draw(st.sampled_from(["0.8461", "0.85"])))]
+        if draw(st.sampled_from([False, False, True])):
+            swaps[1] = ("0.4107", "0.4777")          # the very same characters on both sides
+        for side, (old, newv) in zip((l, r), swaps):
+            cc = side["cells"][i]
+            if kind_ == "source":
+                cc["source"] = cc["source"].replace(old, newv)
+            elif kind_ == "stream":
+                cc["outputs"][0]["text"] = cc["outputs"][0]["text"].replace(old, newv)
+            else:
+                cc["outputs"][0]["data"]["text/plain"] = cc["outputs"][0]["data"]["text/plain"].replace(old, newv)
     elif shape == "both_insert_block":
         # both sides insert a block of lines at the same line of the same source; the blocks share (repeated) lines
         # around a differing middle, e.g. blank line / statement / blank line
